@@ -18,6 +18,19 @@ CLAIMED = {
              "outside the nonlinear lemma/clauses; pandas/numpy models listed in evidence.assumptions; do_call is verified "
              "for filters=None and variants=None (filters are C14's, BAF lookup C18's)",
         technique=TECH, design_ref="8 (C01), 3, 5"),
+    "C19": dict(
+        category="other",
+        text="Deductive: _width2wing (window half-width always in [1, n-1]) discharged by SMT for all lengths and widths. "
+             "Bounded (run-time contracts on the real functions, never counted as proved): weighted-median half-weight "
+             "inequalities and equal-weight median, range and shift-equivariance of the location estimators, non-negativity, "
+             "zero-on-constant, shift/scale behaviour and agreement with an independent implementation of each published "
+             "formula for the scale estimators, output length/finiteness/constant reproduction/range for the smoothers, "
+             "exhaustive mirror-padding check.",
+        note="the estimators bottom out in numpy sort/median/percentile, scipy gaussian_kde/savgol and pandas rolling kernels, "
+             "which no contract here reaches; equivariance is a two-execution property checked only by the bounded stand-in",
+        technique="contract-based: deductive VC generation (pyvc) for the scalar kernel; run-time contracts on generated inputs "
+                  "as the bounded stand-in for numpy/scipy-bound estimators",
+        design_ref="8 (C19)"),
     "C02": dict(
         category="proof",
         text="Every obligation generated from the real AST of absolute_threshold (both loops, for/else, break, continue), "
